@@ -170,7 +170,10 @@ let z_of_hex (s : string) : E.z =
 let rec goval_of_sx (x : sx) : E.goval =
   match x with
   | L (A "nil" :: _) -> E.GNil
-  | L [ A "bool"; A b ] -> E.GBool (b = "1")
+  | L [ A ("bool" | "nbool"); A b ] -> E.GBool (b = "1")
+  | L [ A ("nint" | "nint8" | "nuint16"); A v ] -> E.GInt (z_of_dec v)
+  | L [ A "nf64"; A bits ] -> E.GFloat (E.f_of_bits (z_of_hex bits))
+  | L [ A "nstr"; A h ] -> E.GStr (bytes_of_string (unhex h))
   | L [ A ("int" | "int8" | "int16" | "int32" | "int64" | "uint" | "uint8" | "uint16" | "uint32" | "uint64"); A v ] ->
       E.GInt (z_of_dec v)
   | L [ A ("f64" | "f32"); A bits ] -> E.GFloat (E.f_of_bits (z_of_hex bits))
@@ -191,7 +194,7 @@ let rec goval_of_sx (x : sx) : E.goval =
   | L [ A "ptr"; v ] -> E.GPtr (goval_of_sx v)
   | L (A "nilptr" :: _) -> E.GNilPtr
   | L (A "shared" :: _) -> goval_of_sx (parse_sx "(slice (ptr (int 5)) (ptr (int 5)) (map (70 (ptr (int 5)))))")
-  | L (A ("chan" | "func" | "nilchan" | "nilfunc" | "complex" | "array2" | "imap" | "cyc" | "cycmap" | "cycslice" | "cyc2") :: _) -> E.GOther
+  | L (A ("chan" | "func" | "nilchan" | "nilfunc" | "complex" | "array2" | "imap" | "bmap" | "cyc" | "cycmap" | "cycslice" | "cyc2") :: _) -> E.GOther
   | _ -> failwith "unknown data value"
 
 and kv_of_sx = function
